@@ -1737,6 +1737,20 @@ def install(ex):
         acc = [z3.And(cond, has) for st, cond, has in cur if st in (2, 4, 7)]
         return z3.Or(*acc) if acc else z3.BoolVal(False)
 
+    @model(r"^<(std::option::)?Option<(&(mut )?)*(std::string::)?(String|str)> as PartialEq>::(eq|ne)$", "Option<String> / Option<&String> equality")
+    def option_str_eq(ex, callee, args, rt):
+        a, b = ex.deref(args[0]), ex.deref(args[1])
+        neg = callee.endswith("ne")
+        for va in enum_branch(ex, a, ["Some", "None"]):
+            for vb in enum_branch(ex, b, ["Some", "None"]):
+                if va != vb:
+                    r = z3.BoolVal(False)
+                elif va == "None":
+                    r = z3.BoolVal(True)
+                else:
+                    r = str_eq(ex, variant_field(ex, a, "Some", 0), variant_field(ex, b, "Some", 0))
+                yield z3.Not(r) if neg else r
+
     @model(r"^<(std::option::)?Option<(&(mut )?)*(char|i32|u32|usize|bool|u8)> as PartialEq>::(eq|ne)$", "Option<scalar> / Option<&scalar> equality")
     def option_eq(ex, callee, args, rt):
         a, b = ex.deref(args[0]), ex.deref(args[1])
